@@ -15,7 +15,7 @@ import time
 from concurrent.futures import ThreadPoolExecutor
 
 VERIF = os.path.dirname(os.path.dirname(os.path.abspath(__file__)))
-SCRATCH = "/tmp/vseed"
+SCRATCH = "/tmp/vseed/%d" % os.getpid()
 
 
 def run_one(idx, d, seed):
